@@ -310,6 +310,14 @@ func (w *WAL) mutateStateLocked(tx stateTxn) error {
 
 	if postCommit != nil {
 		if err := postCommit(); err != nil {
+			// The new state is already durable in the meta store but we failed to
+			// complete it (e.g. the new segment file couldn't be created) so we keep
+			// using the old state in memory. Put the meta store back in line with
+			// it, otherwise everything acknowledged against the old state from now
+			// on would be thrown away by the next Open.
+			if rbErr := w.metaDB.CommitState(s.Persistent()); rbErr != nil {
+				return fmt.Errorf("%w (rolling back meta state also failed: %s)", err, rbErr)
+			}
 			return err
 		}
 	}
